@@ -130,7 +130,7 @@ func modelCheck(id string) checkFn {
 	return func(c *Ctx) {
 		c.rule = "generated block histories (all native transaction types, valid and single-defect invalid variants, signer/absentee/evidence patterns) executed on the real application; after every commit the full state dump is compared with a one-step reference model; a history is non-trivial and distinct when it has a distinct (genesis, block list) and at least one accepted state-changing transaction"
 		c.assumptions = []string{"genesis validators satisfy the validator limits", "min validator stake >= 1 unit", "the anchor validator never leaves (Tendermint cannot run with an empty validator set)"}
-		n := c.N(32, 400)
+		n := c.N(32, 2000)
 		c.Parallel(n, 0, func(i int) {
 			o := presetFor(c, id, i)
 			if !c.Quick() {
